@@ -45,9 +45,10 @@ RULE = (
     "partially created / partially published / partially deleted step directory; distinct = distinct (configuration, resulting tree)"
 )
 BOUNDS = {
-    "quick": {"max_crashes_per_history": "unbounded (fixpoint)", "state_cap_per_config": 2500, "unit_of_execution": "one invocation of the script's main() (its whole driver loop)",
+    "quick": {"initial_plate": "plate 0 is the initially observed plate, except in three configurations (initial plate 3 of 4, 2 of 5, 1 of 3) where a later step selects id 0",
+              "max_crashes_per_history": "unbounded (fixpoint)", "state_cap_per_config": 2500, "unit_of_execution": "one invocation of the script's main() (its whole driver loop)",
               "configs": "retrospective (batch,plates,chains,chunks) in {(1,3,1,1),(2,4,1,1),(3,5,1,1),(2,3,2,2)}; prospective (batch,iterations) in {(1,2),(2,2),(3,2)} with (1,1) and (2,2,(2,2)); plus one crash-bounded long run (batch 1 / 13 plates: every interruption point of every launch, <= 1 interruption per history)"},
-    "thorough": {"max_crashes_per_history": "unbounded (fixpoint)", "state_cap_per_config": 40000,
+    "thorough": {"max_crashes_per_history": "unbounded (fixpoint)", "state_cap_per_config": 40000, "initial_plate": "as quick plus batch 3 / 5 plates with initial plate 4",
                  "configs": "batch 1..4 x plates 2..5 x {(1,1),(2,2)} both modes; plus batch 11 / 13 plates (two-digit plate dirs); plus two crash-bounded long runs (batch 1 / 13 plates, batch 2 / 23 plates)"},
 }
 ASSUMPTIONS = [
@@ -249,7 +250,8 @@ class FakeNextflow:
         if mode == "retrospective" and params["initialize"]:
             src = read_screen(opts["screen"])
             P = src["plates"]
-            train = {"kind": "screen", "plates": P, "observed": [0]}
+            # which plate the initial-plate generator reveals is a function of the screen (here: a field of the abstract screen)
+            train = {"kind": "screen", "plates": P, "observed": [int(src.get("initial", 0))]}
             test = {"kind": "test", "plates": P, "observed": list(range(P))}
         elif mode == "retrospective":
             train = read_screen(opts["training_screen"])
@@ -366,8 +368,8 @@ class Sandbox:
         os.makedirs(os.path.dirname(self.root), exist_ok=True)
         self.input = os.path.join(self.base, "unmasked_screen.h5")
         with open(self.input, "w") as f:
-            observed = list(range(cfg["plates"])) if cfg["mode"] == "retrospective" else [0]
-            json.dump({"kind": "screen", "plates": cfg["plates"], "observed": observed}, f)
+            observed = list(range(cfg["plates"])) if cfg["mode"] == "retrospective" else [cfg.get("initial", 0)]
+            json.dump({"kind": "screen", "plates": cfg["plates"], "observed": observed, "initial": cfg.get("initial", 0)}, f)
         self.dag_source = dag_source
 
     def close(self):
@@ -375,7 +377,7 @@ class Sandbox:
 
     def set_input(self, observed):
         with open(self.input, "w") as f:
-            json.dump({"kind": "screen", "plates": self.cfg["plates"], "observed": sorted(observed)}, f)
+            json.dump({"kind": "screen", "plates": self.cfg["plates"], "observed": sorted(observed), "initial": self.cfg.get("initial", 0)}, f)
 
     def execute(self, tree, crash):
         """One invocation of the script's main() (its whole driver loop) from `tree`.
@@ -531,12 +533,12 @@ def current_round(cfg, tree):
 
 def prepare_input(sb, cfg, tree):
     """The screen the user hands to the script: retrospective - the fully observed screen; prospective - the
-    screen of the current round: initially observed plate 0 plus the plates selected in the finished batches."""
+    screen of the current round: the initially observed plate (0 unless the configuration says otherwise) plus the plates selected in the finished batches."""
     if cfg["mode"] == "retrospective":
         sb.set_input(range(cfg["plates"]))
         return 0
     rnd = current_round(cfg, tree)
-    sb.set_input({0} | recorded_selections(tree, rnd))
+    sb.set_input({cfg.get("initial", 0)} | recorded_selections(tree, rnd))
     return rnd
 
 
@@ -853,6 +855,12 @@ ODD = [{"mode": "retrospective", "batch": 2, "plates": 4, "chains": 1, "chunks":
        {"mode": "retrospective", "batch": 1, "plates": 3, "chains": 1, "chunks": 1, "relative": True}]
 
 
+# plate id 0 is NOT the initially observed plate, so some step selects id 0 (a falsy number, the first line of a listing)
+ZERO_LATE = [{"mode": "retrospective", "batch": 2, "plates": 4, "chains": 1, "chunks": 1, "initial": 3},
+             {"mode": "prospective", "batch": 2, "plates": 5, "chains": 1, "chunks": 1, "iterations": 2, "initial": 2},
+             {"mode": "retrospective", "batch": 1, "plates": 3, "chains": 1, "chunks": 1, "initial": 1}]
+
+
 def configs(tier):
     out = []
     if tier == "quick":
@@ -862,6 +870,7 @@ def configs(tier):
             out.append({"mode": "prospective", "batch": b, "plates": 2 + b * it, "chains": c, "chunks": k, "iterations": it})
         out += DEEP[:1]
         out += ODD
+        out += ZERO_LATE
     else:
         for b in (1, 2, 3, 4):
             for p in (2, 3, 4, 5):
@@ -874,6 +883,8 @@ def configs(tier):
         out.append({"mode": "retrospective", "batch": 11, "plates": 13, "chains": 1, "chunks": 1})
         out += DEEP
         out += ODD
+        out += ZERO_LATE
+        out.append({"mode": "retrospective", "batch": 3, "plates": 5, "chains": 1, "chunks": 1, "initial": 4})
     return out
 
 
